@@ -7,7 +7,7 @@ Property theorems about `XlModel.FormulaRef` (transcription of adjust.go's
 references (all 16384 columns, all rows, every `$` combination), all edits and
 all token lists.
 -/
-import XlModel.Lemmas.FormulaRef2
+import XlModel.Lemmas.FormulaRef7
 
 namespace XlModel.Props.C07
 open XlModel XlModel.Ref XlModel.FormulaRef
@@ -74,7 +74,8 @@ theorem operand_rewrite_correct (kr : Bool) (e : Edit) (r r' : Spec.Ref) (op0 : 
         subst hs
         obtain ⟨g1, g2⟩ := hg
         obtain ⟨g1', g2'⟩ := hg'
-        exact adjustCell_single kr e op0 _ _ (runEnd_cell kr e c c' ro ro' op0 g1 hc g1' g2 hr g2')
+        exact adjustCell_single kr e op0 _ _ (runEnd_cell kr e c c' ro ro' op0 (fun op => adjCol_render kr e c c' op g1 hc g1') (shiftCol_abs kr e hc)
+          (fun op => adjRow_render kr e ro ro' op g2 hr g2') (shiftRow_abs kr e hr))
   | range c1 r1 c2 r2 =>
     simp only [Spec.shiftRef] at hs
     cases h1 : Spec.shiftCol kr e c1 with
@@ -93,9 +94,11 @@ theorem operand_rewrite_correct (kr : Bool) (e : Edit) (r r' : Spec.Ref) (op0 : 
             subst hs
             obtain ⟨g1, g2, g3, g4⟩ := hg
             obtain ⟨g1', g2', g3', g4'⟩ := hg'
-            have hX := runEnd_cell kr e c1 c1' r1 r1' op0 g1 h1 g1' g2 h2 g2'
+            have hX := runEnd_cell kr e c1 c1' r1 r1' op0 (fun op => adjCol_render kr e c1 c1' op g1 h1 g1') (shiftCol_abs kr e h1)
+              (fun op => adjRow_render kr e r1 r1' op g2 h2 g2') (shiftRow_abs kr e h2)
             have hY := runEnd_cell kr e c2 c2' r2 r2' (op0 ++ (Spec.renderCol c1' ++ Spec.renderRow r1') ++ [':'])
-              g3 h3 g3' g4 h4 g4'
+              (fun op => adjCol_render kr e c2 c2' op g3 h3 g3') (shiftCol_abs kr e h3)
+              (fun op => adjRow_render kr e r2 r2' op g4 h4 g4') (shiftRow_abs kr e h4)
             have := adjustCell_range kr e op0 _ _ _ _ hX hY
             simpa [Spec.render, List.append_assoc] using this
   | cols c1 c2 =>
@@ -110,8 +113,8 @@ theorem operand_rewrite_correct (kr : Bool) (e : Edit) (r r' : Spec.Ref) (op0 : 
         subst hs
         obtain ⟨g1, g3⟩ := hg
         obtain ⟨g1', g3'⟩ := hg'
-        have hX := runEnd_col kr e c1 c1' op0 g1 h1 g1'
-        have hY := runEnd_col kr e c2 c2' (op0 ++ Spec.renderCol c1' ++ [':']) g3 h3 g3'
+        have hX := runEnd_col kr e c1 c1' op0 (fun op => adjCol_render kr e c1 c1' op g1 h1 g1') (shiftCol_abs kr e h1)
+        have hY := runEnd_col kr e c2 c2' (op0 ++ Spec.renderCol c1' ++ [':']) (fun op => adjCol_render kr e c2 c2' op g3 h3 g3') (shiftCol_abs kr e h3)
         have := adjustCell_range kr e op0 _ _ _ _ hX hY
         simpa [Spec.render, List.append_assoc] using this
   | rows r1 r2 =>
@@ -126,8 +129,8 @@ theorem operand_rewrite_correct (kr : Bool) (e : Edit) (r r' : Spec.Ref) (op0 : 
         subst hs
         obtain ⟨g2, g4⟩ := hg
         obtain ⟨g2', g4'⟩ := hg'
-        have hX := runEnd_row kr e r1 r1' op0 g2 h2 g2'
-        have hY := runEnd_row kr e r2 r2' (op0 ++ Spec.renderRow r1' ++ [':']) g4 h4 g4'
+        have hX := runEnd_row kr e r1 r1' op0 (fun op => adjRow_render kr e r1 r1' op g2 h2 g2') (shiftRow_abs kr e h2)
+        have hY := runEnd_row kr e r2 r2' (op0 ++ Spec.renderRow r1' ++ [':']) (fun op => adjRow_render kr e r2 r2' op g4 h4 g4') (shiftRow_abs kr e h4)
         have := adjustCell_range kr e op0 _ _ _ _ hX hY
         simpa [Spec.render, List.append_assoc] using this
 
@@ -210,68 +213,6 @@ theorem cell_markers_in_text (kr : Bool) (e : Edit) (c c' : Spec.ColEnd) (ro ro'
   simp [Spec.render, Spec.renderCol, Spec.renderRow, m.1, m.2]
 
 /-! ## Same cells: the denotation of the relocated reference -/
-
-def posOk (p : Nat × Nat) : Prop :=
-  1 ≤ p.1 ∧ p.1 ≤ Facts.MaxColumns ∧ 1 ≤ p.2 ∧ p.2 ≤ Facts.TotalRows
-
-/-- relocation of indices is strictly monotone on the surviving indices -/
-theorem shiftIdx_mono {num off : Int} (hn : 0 ≤ num) {a b a' b' : Nat}
-    (ha : Spec.shiftIdx num off a = some a') (hb : Spec.shiftIdx num off b = some b') :
-    (a ≤ b ↔ a' ≤ b') := by
-  unfold Spec.shiftIdx at ha hb
-  split at ha <;> split at hb
-  all_goals (try split at ha) <;> (try split at hb) <;> (try split at ha) <;> (try split at hb)
-  all_goals simp only [Option.some.injEq, reduceCtorEq] at ha hb
-  all_goals omega
-
-theorem between_shift {a b x a' b' x' : Nat}
-    (h1 : a ≤ b ↔ a' ≤ b') (h2 : b ≤ a ↔ b' ≤ a') (h3 : a ≤ x ↔ a' ≤ x') (h4 : x ≤ a ↔ x' ≤ a')
-    (h5 : b ≤ x ↔ b' ≤ x') (h6 : x ≤ b ↔ x' ≤ b') :
-    (min a' b' ≤ x' ∧ x' ≤ max a' b') ↔ (min a b ≤ x ∧ x ≤ max a b) := by
-  simp only [Nat.min_def, Nat.max_def]
-  split <;> split <;> omega
-
-theorem between_of_shift {num off : Int} (hn : 0 ≤ num) {a b x a' b' x' : Nat}
-    (ha : Spec.shiftIdx num off a = some a') (hb : Spec.shiftIdx num off b = some b')
-    (hx : Spec.shiftIdx num off x = some x') :
-    (min a' b' ≤ x' ∧ x' ≤ max a' b') ↔ (min a b ≤ x ∧ x ≤ max a b) :=
-  between_shift (shiftIdx_mono hn ha hb) (shiftIdx_mono hn hb ha) (shiftIdx_mono hn ha hx)
-    (shiftIdx_mono hn hx ha) (shiftIdx_mono hn hb hx) (shiftIdx_mono hn hx hb)
-
-theorem eq_of_shift {num off : Int} (hn : 0 ≤ num) {a x a' x' : Nat}
-    (ha : Spec.shiftIdx num off a = some a') (hx : Spec.shiftIdx num off x = some x') :
-    (x' = a' ↔ x = a) := by
-  have h1 := shiftIdx_mono hn ha hx
-  have h2 := shiftIdx_mono hn hx ha
-  omega
-
-theorem shiftCol_cols {e : Edit} (hd : e.dir = .cols) {c c' : Spec.ColEnd}
-    (h : Spec.shiftCol false e c = some c') : Spec.shiftIdx e.num e.off c.n = some c'.n := by
-  unfold Spec.shiftCol Spec.moves at h
-  simp only [hd, Bool.not_false, Bool.or_true, and_self, if_true] at h
-  cases hx : Spec.shiftIdx e.num e.off c.n with
-  | none => simp [hx] at h
-  | some j => simp [hx] at h; rw [← h]
-
-theorem shiftCol_rows {e : Edit} (hd : e.dir = .rows) {c c' : Spec.ColEnd}
-    (h : Spec.shiftCol false e c = some c') : c' = c := by
-  unfold Spec.shiftCol at h
-  simp [hd] at h
-  exact h.symm
-
-theorem shiftRow_rows {e : Edit} (hd : e.dir = .rows) {r r' : Spec.RowEnd}
-    (h : Spec.shiftRow false e r = some r') : Spec.shiftIdx e.num e.off r.n = some r'.n := by
-  unfold Spec.shiftRow Spec.moves at h
-  simp only [hd, Bool.not_false, Bool.or_true, and_self, if_true] at h
-  cases hx : Spec.shiftIdx e.num e.off r.n with
-  | none => simp [hx] at h
-  | some j => simp [hx] at h; rw [← h]
-
-theorem shiftRow_cols {e : Edit} (hd : e.dir = .cols) {r r' : Spec.RowEnd}
-    (h : Spec.shiftRow false e r = some r') : r' = r := by
-  unfold Spec.shiftRow at h
-  simp [hd] at h
-  exact h.symm
 
 /-- **denote_shift** — the semantic clause "each reference still denotes the same cells at their
 new position": for every reference none of whose endpoints is deleted, and every surviving grid
@@ -432,84 +373,6 @@ theorem denote_shift (e : Edit) (hn : 0 ≤ e.num) (r r' : Spec.Ref) (p p' : Nat
 
 /-! ## Which sheet is compared with which; sheet prefixes -/
 
-theorem splitOnAux_none (d : Nat) (s cur : Str) (h : ∀ c ∈ s, (c.toNat == d) = false) :
-    Impl.splitOnAux d cur s = [cur.reverse ++ s] := by
-  induction s generalizing cur with
-  | nil => simp [Impl.splitOnAux]
-  | cons x xs ih =>
-    simp only [Impl.splitOnAux, h x (by simp), Bool.false_eq_true, if_false]
-    rw [ih _ (fun c hc => h c (by simp [hc]))]
-    simp
-
-theorem splitOn_none (d : Nat) (s : Str) (h : ∀ c ∈ s, (c.toNat == d) = false) :
-    Impl.splitOn d s = [s] := by
-  simp [Impl.splitOn, splitOnAux_none d s [] h]
-
-theorem splitOnAux_one (d : Nat) (dc : Char) (hd : (dc.toNat == d) = true) (a b cur : Str)
-    (ha : ∀ c ∈ a, (c.toNat == d) = false) (hb : ∀ c ∈ b, (c.toNat == d) = false) :
-    Impl.splitOnAux d cur (a ++ dc :: b) = [cur.reverse ++ a, b] := by
-  induction a generalizing cur with
-  | nil => simp [Impl.splitOnAux, hd, splitOnAux_none d b [] hb]
-  | cons x xs ih =>
-    simp only [List.cons_append, Impl.splitOnAux, ha x (by simp), Bool.false_eq_true, if_false]
-    rw [ih _ (fun c hc => ha c (by simp [hc]))]
-    simp
-
-theorem splitOn_one (d : Nat) (dc : Char) (hd : (dc.toNat == d) = true) (a b : Str)
-    (ha : ∀ c ∈ a, (c.toNat == d) = false) (hb : ∀ c ∈ b, (c.toNat == d) = false) :
-    Impl.splitOn d (a ++ dc :: b) = [a, b] := by
-  simp [Impl.splitOn, splitOnAux_one d dc hd a b [] ha hb]
-
-def noBang (s : Str) : Prop := ∀ c ∈ s, (c.toNat == Facts.C07.sheetSep) = false
-
-theorem letter_noBang {c : Char} (h : isLetter c = true) : (c.toNat == Facts.C07.sheetSep) = false := by
-  simp only [isLetter, isUp, isLo, Bool.or_eq_true, Bool.and_eq_true, decide_eq_true_eq] at h
-  show (c.toNat == 33) = false
-  simp only [beq_eq_false_iff_ne]
-  omega
-
-theorem digit_noBang {c : Char} (h : isDigit c = true) : (c.toNat == Facts.C07.sheetSep) = false := by
-  simp only [isDigit, Bool.and_eq_true, decide_eq_true_eq] at h
-  show (c.toNat == 33) = false
-  simp only [beq_eq_false_iff_ne]
-  omega
-
-theorem renderCol_noBang (c : Spec.ColEnd) : noBang (Spec.renderCol c) := by
-  intro x hx
-  unfold Spec.renderCol Spec.dollarIf at hx
-  rcases List.mem_append.mp hx with h | h
-  · split at h
-    · simp only [List.mem_singleton] at h; subst h; decide
-    · simp at h
-  · exact letter_noBang (numToName_letters c.n x h)
-
-theorem renderRow_noBang (r : Spec.RowEnd) : noBang (Spec.renderRow r) := by
-  intro x hx
-  unfold Spec.renderRow Spec.dollarIf at hx
-  rcases List.mem_append.mp hx with h | h
-  · split at h
-    · simp only [List.mem_singleton] at h; subst h; decide
-    · simp at h
-  · exact digit_noBang (itoa_digits r.n x h)
-
-theorem noBang_append {a b : Str} (ha : noBang a) (hb : noBang b) : noBang (a ++ b) := by
-  intro x hx
-  rcases List.mem_append.mp hx with h | h
-  · exact ha x h
-  · exact hb x h
-
-theorem colon_noBang : noBang [':'] := by
-  intro x hx; simp only [List.mem_singleton] at hx; subst hx; decide
-
-theorem render_noBang (r : Spec.Ref) : noBang (Spec.render r) := by
-  cases r with
-  | cell c ro => exact noBang_append (renderCol_noBang c) (renderRow_noBang ro)
-  | range c1 r1 c2 r2 =>
-    exact noBang_append (noBang_append (noBang_append (renderCol_noBang c1) (renderRow_noBang r1)) colon_noBang)
-      (noBang_append (renderCol_noBang c2) (renderRow_noBang r2))
-  | cols c1 c2 => exact noBang_append (noBang_append (renderCol_noBang c1) colon_noBang) (renderCol_noBang c2)
-  | rows r1 r2 => exact noBang_append (noBang_append (renderRow_noBang r1) colon_noBang) (renderRow_noBang r2)
-
 /-- **formula_on_edited_sheet** — an unprefixed reference in a formula that lives on the edited
 sheet is relocated (`adjustFormulaOperand` level). -/
 theorem operand_unprefixed_same_sheet (sheet : Str) (kr : Bool) (e : Edit) (r r' : Spec.Ref)
@@ -574,31 +437,6 @@ theorem operand_prefixed_other_sheet (sheet sheetN name cell : Str) (kr : Bool) 
 
 /-! ## Quoting round trips (sheet prefixes, string literals) -/
 
-/-- efp's reading of a quoted run after the opening quote (`InString` / `InPath`): a doubled quote is
-one quote, a single quote ends the run. Returns the content and the rest of the input. -/
-def efpQ (q : Nat) : Option Char → Str → Option (Str × Str)
-  | none, [] => none
-  | some _, [] => some ([], [])
-  | some c, d :: ds => if d.toNat == q then (efpQ q none ds).map (fun p => (c :: p.1, p.2)) else some ([], d :: ds)
-  | none, c :: cs => if c.toNat == q then efpQ q (some c) cs else (efpQ q none cs).map (fun p => (c :: p.1, p.2))
-
-def efpQuoted (q : Nat) (s : Str) : Option (Str × Str) := efpQ q none s
-
-theorem efpQuoted_double (q : Nat) (qc : Char) (hq : (qc.toNat == q) = true) (s rest : Str)
-    (hr : ∀ d ds, rest = d :: ds → (d.toNat == q) = false) :
-    efpQuoted q (Impl.doubleQ q s ++ qc :: rest) = some (s, rest) := by
-  unfold efpQuoted
-  induction s with
-  | nil =>
-    cases rest with
-    | nil => simp [Impl.doubleQ, efpQ, hq]
-    | cons d ds => simp [Impl.doubleQ, efpQ, hq, hr d ds rfl]
-  | cons c cs ih =>
-    by_cases hc : (c.toNat == q) = true
-    · simp [Impl.doubleQ, hc, efpQ, ih]
-    · have hc' : (c.toNat == q) = false := by simpa using hc
-      simp [Impl.doubleQ, hc', efpQ, ih]
-
 /-- **string_literals_preserved** — clause "string literals are preserved verbatim": the text
 operand re-emitted by `adjustFormulaRef` is `"` + content with doubled quotes + `"`, which efp (and
 Excel) read back as exactly the original content, whatever follows that is not another quote. -/
@@ -625,76 +463,6 @@ theorem sheet_prefix_roundtrip (name cell : Str) :
     simpa using this
 
 /-! ## Everything that is not an adjusted range operand is rendered back verbatim -/
-
-def refChar (c : Char) : Prop := isLetter c = true ∨ isDigit c = true ∨ c = '$' ∨ c = ':'
-
-theorem renderCol_chars (c : Spec.ColEnd) : ∀ x ∈ Spec.renderCol c, refChar x := by
-  intro x hx
-  unfold Spec.renderCol Spec.dollarIf at hx
-  rcases List.mem_append.mp hx with h | h
-  · split at h
-    · simp only [List.mem_singleton] at h; exact Or.inr (Or.inr (Or.inl h))
-    · simp at h
-  · exact Or.inl (numToName_letters c.n x h)
-
-theorem renderRow_chars (r : Spec.RowEnd) : ∀ x ∈ Spec.renderRow r, refChar x := by
-  intro x hx
-  unfold Spec.renderRow Spec.dollarIf at hx
-  rcases List.mem_append.mp hx with h | h
-  · split at h
-    · simp only [List.mem_singleton] at h; exact Or.inr (Or.inr (Or.inl h))
-    · simp at h
-  · exact Or.inr (Or.inl (itoa_digits r.n x h))
-
-theorem render_chars (r : Spec.Ref) : ∀ x ∈ Spec.render r, refChar x := by
-  intro x hx
-  cases r with
-  | cell c ro =>
-    rcases List.mem_append.mp hx with h | h
-    · exact renderCol_chars c x h
-    · exact renderRow_chars ro x h
-  | range c1 r1 c2 r2 =>
-    simp only [Spec.render, List.mem_append, List.mem_singleton] at hx
-    rcases hx with ((h | h) | h) | (h | h)
-    · exact renderCol_chars c1 x h
-    · exact renderRow_chars r1 x h
-    · exact Or.inr (Or.inr (Or.inr h))
-    · exact renderCol_chars c2 x h
-    · exact renderRow_chars r2 x h
-  | cols c1 c2 =>
-    simp only [Spec.render, List.mem_append, List.mem_singleton] at hx
-    rcases hx with (h | h) | h
-    · exact renderCol_chars c1 x h
-    · exact Or.inr (Or.inr (Or.inr h))
-    · exact renderCol_chars c2 x h
-  | rows r1 r2 =>
-    simp only [Spec.render, List.mem_append, List.mem_singleton] at hx
-    rcases hx with (h | h) | h
-    · exact renderRow_chars r1 x h
-    · exact Or.inr (Or.inr (Or.inr h))
-    · exact renderRow_chars r2 x h
-
-theorem render_noBracket (r : Spec.Ref) : Impl.containsBracket (Spec.render r) = false := by
-  unfold Impl.containsBracket
-  rw [List.any_eq_false]
-  intro c hc
-  rcases render_chars r c hc with h | h | h | h
-  · simp only [isLetter, isUp, isLo, Bool.or_eq_true, Bool.and_eq_true, decide_eq_true_eq] at h
-    simp only [Bool.or_eq_true, beq_iff_eq, not_or]
-    omega
-  · simp only [isDigit, Bool.and_eq_true, decide_eq_true_eq] at h
-    simp only [Bool.or_eq_true, beq_iff_eq, not_or]
-    omega
-  · subst h; decide
-  · subst h; decide
-
-/-- what one token contributes to the output of `adjustFormulaRef` -/
-def pieceOf (env : Impl.Env) (t : Token) : Except Err Str :=
-  if t.ty = .operand ∧ t.sub = .range then
-    if env.names.contains t.tv then .ok t.tv
-    else if Impl.containsBracket t.tv then .ok t.tv
-    else Impl.adjustOperand env.sheet env.sheetN env.kr env.e t.tv
-  else .ok (Impl.verbatim t)
 
 /-- the token loop is the concatenation of the per-token pieces -/
 theorem loop_pieces (env : Impl.Env) (toks : List Token) (f : Token → Str) (val : Str)
@@ -791,6 +559,285 @@ theorem formula_rewrite_correct (sheet : Str) (e : Edit) (formula : Str)
       | none => rfl
       | some p => simp
 
+/-! ## `render` is faithful: the reference grammar parser inverts it -/
+
+/-- **parse_render** — `Spec.render` loses nothing: for EVERY reference (all shapes, all columns and
+rows ≥ 1, every `$` combination) the grammar parser reads the rendered text back as exactly that
+reference. Together with `operand_rewrite_correct`:
+`parseRef (adjustOperand (render r)) = some (shiftRef r)` (`operand_rewrite_parse`). -/
+theorem parse_render (r : Spec.Ref) (h : Spec.Ref.pos r) : Spec.parseRef (Spec.render r) = some r :=
+  parseRef_render r h
+
+/-- `render` is injective on references with positive indices -/
+theorem render_injective (r s : Spec.Ref) (hr : Spec.Ref.pos r) (hs : Spec.Ref.pos s)
+    (h : Spec.render r = Spec.render s) : r = s := by
+  have a := parse_render r hr
+  rw [h, parse_render s hs] at a
+  exact (Option.some.inj a).symm
+
+/-- **operand_rewrite_parse** — the coordinator's formulation: parsing the rewritten operand gives
+the relocated reference, for every reference of the grammar. -/
+theorem operand_rewrite_parse (kr : Bool) (e : Edit) (r r' : Spec.Ref)
+    (hg : Spec.inGrid r) (hs : Spec.shiftRef kr e r = some r') (hg' : Spec.inGrid r') :
+    (Impl.adjustCell kr e [] (Spec.render r)).toOption.bind Spec.parseRef = some r' := by
+  rw [operand_rewrite_correct kr e r r' [] hg hs hg']
+  simp [Except.toOption, parse_render r' (inGrid_pos hg')]
+
+/-! ## Inside the excluded region: what the code does with a deleted endpoint -/
+
+/-- **operand_rewrite_total** — the rewriter is characterised on EVERY in-grid reference, deleted
+endpoints included: the output is the rendering of `Spec.slideRef`, where every moving coordinate
+`i ≥ num` becomes `max 1 (i + offset)` (`Spec.slideIdx`). `operand_rewrite_correct` is the special
+case in which no endpoint is deleted (`shiftRef_slide`). Hypotheses: Go's `int` does not overflow on
+`index + offset` (`offOk`) and the result stays in the grid (otherwise: `leaves_grid_is_error`). -/
+theorem operand_rewrite_total (kr : Bool) (e : Edit) (r : Spec.Ref) (op0 : Str) (ho : offOk e)
+    (hg : Spec.inGrid r) (hg' : Spec.inGrid (Spec.slideRef kr e r)) :
+    Impl.adjustCell kr e op0 (Spec.render r) = .ok (op0 ++ Spec.render (Spec.slideRef kr e r)) := by
+  cases r with
+  | cell c ro =>
+    obtain ⟨g1, g2⟩ := hg
+    obtain ⟨g1', g2'⟩ := hg'
+    exact adjustCell_single kr e op0 _ _
+      (runEnd_cell kr e c _ ro _ op0 (fun op => adjCol_slide kr e c op ho g1 g1') (slideCol_abs kr e c)
+        (fun op => adjRow_slide kr e ro op ho g2 g2') (slideRow_abs kr e ro))
+  | range c1 r1 c2 r2 =>
+    obtain ⟨g1, g2, g3, g4⟩ := hg
+    obtain ⟨g1', g2', g3', g4'⟩ := hg'
+    have hX := runEnd_cell kr e c1 _ r1 _ op0 (fun op => adjCol_slide kr e c1 op ho g1 g1') (slideCol_abs kr e c1)
+      (fun op => adjRow_slide kr e r1 op ho g2 g2') (slideRow_abs kr e r1)
+    have hY := runEnd_cell kr e c2 _ r2 _
+      (op0 ++ (Spec.renderCol (Spec.slideCol kr e c1) ++ Spec.renderRow (Spec.slideRow kr e r1)) ++ [':'])
+      (fun op => adjCol_slide kr e c2 op ho g3 g3') (slideCol_abs kr e c2)
+      (fun op => adjRow_slide kr e r2 op ho g4 g4') (slideRow_abs kr e r2)
+    have := adjustCell_range kr e op0 _ _ _ _ hX hY
+    simpa [Spec.render, Spec.slideRef, List.append_assoc] using this
+  | cols c1 c2 =>
+    obtain ⟨g1, g3⟩ := hg
+    obtain ⟨g1', g3'⟩ := hg'
+    have hX := runEnd_col kr e c1 _ op0 (fun op => adjCol_slide kr e c1 op ho g1 g1') (slideCol_abs kr e c1)
+    have hY := runEnd_col kr e c2 _ (op0 ++ Spec.renderCol (Spec.slideCol kr e c1) ++ [':'])
+      (fun op => adjCol_slide kr e c2 op ho g3 g3') (slideCol_abs kr e c2)
+    have := adjustCell_range kr e op0 _ _ _ _ hX hY
+    simpa [Spec.render, Spec.slideRef, List.append_assoc] using this
+  | rows r1 r2 =>
+    obtain ⟨g2, g4⟩ := hg
+    obtain ⟨g2', g4'⟩ := hg'
+    have hX := runEnd_row kr e r1 _ op0 (fun op => adjRow_slide kr e r1 op ho g2 g2') (slideRow_abs kr e r1)
+    have hY := runEnd_row kr e r2 _ (op0 ++ Spec.renderRow (Spec.slideRow kr e r1) ++ [':'])
+      (fun op => adjRow_slide kr e r2 op ho g4 g4') (slideRow_abs kr e r2)
+    have := adjustCell_range kr e op0 _ _ _ _ hX hY
+    simpa [Spec.render, Spec.slideRef, List.append_assoc] using this
+
+/-- outside the excluded region the two descriptions coincide -/
+theorem shiftRef_slide (kr : Bool) (e : Edit) (r r' : Spec.Ref) (hs : Spec.shiftRef kr e r = some r')
+    (hp : Spec.Ref.pos r') : Spec.slideRef kr e r = r' := by
+  cases r with
+  | cell c ro =>
+    simp only [Spec.shiftRef] at hs
+    cases hc : Spec.shiftCol kr e c with
+    | none => simp [hc] at hs
+    | some c' =>
+      cases hr : Spec.shiftRow kr e ro with
+      | none => simp [hc, hr] at hs
+      | some ro' =>
+        simp only [hc, hr, Option.some.injEq] at hs
+        subst hs
+        simp only [Spec.Ref.pos] at hp
+        simp [Spec.slideRef, shiftCol_slide hc hp.1, shiftRow_slide hr hp.2]
+  | range c1 r1 c2 r2 =>
+    simp only [Spec.shiftRef] at hs
+    cases h1 : Spec.shiftCol kr e c1 with
+    | none => simp [h1] at hs
+    | some c1' =>
+      cases h2 : Spec.shiftRow kr e r1 with
+      | none => simp [h1, h2] at hs
+      | some r1' =>
+        cases h3 : Spec.shiftCol kr e c2 with
+        | none => simp [h1, h2, h3] at hs
+        | some c2' =>
+          cases h4 : Spec.shiftRow kr e r2 with
+          | none => simp [h1, h2, h3, h4] at hs
+          | some r2' =>
+            simp only [h1, h2, h3, h4, Option.some.injEq] at hs
+            subst hs
+            simp only [Spec.Ref.pos] at hp
+            simp [Spec.slideRef, shiftCol_slide h1 hp.1, shiftRow_slide h2 hp.2.1, shiftCol_slide h3 hp.2.2.1,
+              shiftRow_slide h4 hp.2.2.2]
+  | cols c1 c2 =>
+    simp only [Spec.shiftRef] at hs
+    cases h1 : Spec.shiftCol kr e c1 with
+    | none => simp [h1] at hs
+    | some c1' =>
+      cases h3 : Spec.shiftCol kr e c2 with
+      | none => simp [h1, h3] at hs
+      | some c2' =>
+        simp only [h1, h3, Option.some.injEq] at hs
+        subst hs
+        simp only [Spec.Ref.pos] at hp
+        simp [Spec.slideRef, shiftCol_slide h1 hp.1, shiftCol_slide h3 hp.2]
+  | rows r1 r2 =>
+    simp only [Spec.shiftRef] at hs
+    cases h2 : Spec.shiftRow kr e r1 with
+    | none => simp [h2] at hs
+    | some r1' =>
+      cases h4 : Spec.shiftRow kr e r2 with
+      | none => simp [h2, h4] at hs
+      | some r2' =>
+        simp only [h2, h4, Option.some.injEq] at hs
+        subst hs
+        simp only [Spec.Ref.pos] at hp
+        simp [Spec.slideRef, shiftRow_slide h2 hp.1, shiftRow_slide h4 hp.2]
+
+/-- **deleted_endpoint_lands_before_block** — the excluded region made explicit. An index inside
+the deleted block (`num ≤ i < num - off`, `off < 0`) has no relocation (`shiftIdx = none`), and the
+code moves it to `max 1 (i + off)`, which lies strictly before the block start `num` (or is 1):
+a position whose cell was not moved by the edit, i.e. a *different* cell than the one referenced. -/
+theorem deleted_endpoint_lands_before_block (num off : Int) (i : Nat) (hoff : off < 0)
+    (h1 : num ≤ (i : Int)) (h2 : (i : Int) < num - off) :
+    Spec.shiftIdx num off i = none ∧
+    Spec.slideIdx num off i = (max 1 ((i : Int) + off)).toNat ∧
+    (((Spec.slideIdx num off i : Nat) : Int) < num ∨ Spec.slideIdx num off i = 1) := by
+  have hlt : ¬ ((i : Int) < num) := by omega
+  refine ⟨?_, slideIdx_ge h1, ?_⟩
+  · unfold Spec.shiftIdx
+    have a : ¬ (0 ≤ off) := by omega
+    have b : ¬ (num - off ≤ (i : Int)) := by omega
+    simp [hlt, a, b]
+  · rw [slideIdx_ge h1]
+    omega
+
+/-- consequence for a reference to a single cell in a deleted row (`num ≥ 2`, one row deleted, the API's
+only deletion): the rewritten reference denotes the cell that was directly above the deleted one —
+which the original reference did not denote. (Excel: `#REF!`.) -/
+theorem deleted_cell_ref_denotes_neighbour (c : Spec.ColEnd) (num : Nat) (hn : 2 ≤ num) (abs : Bool) :
+    Spec.shiftRef false ⟨.rows, num, -1⟩ (.cell c ⟨abs, num⟩) = none ∧
+    Spec.slideRef false ⟨.rows, num, -1⟩ (.cell c ⟨abs, num⟩) = .cell c ⟨abs, num - 1⟩ ∧
+    Spec.shiftPos ⟨.rows, num, -1⟩ (c.n, num - 1) = some (c.n, num - 1) ∧
+    ¬ Spec.denote (.cell c ⟨abs, num⟩) (c.n, num - 1) := by
+  have d := deleted_endpoint_lands_before_block (num : Int) (-1) num (by omega) (by omega) (by omega)
+  refine ⟨?_, ?_, ?_, ?_⟩
+  · simp [Spec.shiftRef, Spec.shiftCol, Spec.shiftRow, Spec.moves, d.1]
+  · have : Spec.slideIdx (num : Int) (-1) num = num - 1 := by rw [d.2.1]; omega
+    simp [Spec.slideRef, Spec.slideCol, Spec.slideRow, Spec.moves, this]
+  · have : ((num - 1 : Nat) : Int) < (num : Int) := by omega
+    simp [Spec.shiftPos, shiftIdx_lt this]
+  · simp [Spec.denote]; omega
+
+/-- consequence for a range whose FIRST row is the deleted one: the rewritten range starts one row
+too early — it additionally denotes the cell above the old range (`A3:A5`, delete row 3 → `A2:A4`,
+which contains the old `A2`; Excel gives `A3:A4`). When the LAST row is the deleted one the code's
+answer is the right one (`A1:A3`, delete row 3 → `A1:A2`). -/
+theorem deleted_range_start_denotes_extra (c : Spec.ColEnd) (a b : Nat) (ha : 2 ≤ a) (hab : a < b) :
+    Spec.slideRef false ⟨.rows, a, -1⟩ (.range c ⟨false, a⟩ c ⟨false, b⟩) = .range c ⟨false, a - 1⟩ c ⟨false, b - 1⟩ ∧
+    Spec.denote (.range c ⟨false, a - 1⟩ c ⟨false, b - 1⟩) (c.n, a - 1) ∧
+    Spec.shiftPos ⟨.rows, a, -1⟩ (c.n, a - 1) = some (c.n, a - 1) ∧
+    ¬ Spec.denote (.range c ⟨false, a⟩ c ⟨false, b⟩) (c.n, a - 1) := by
+  have s1 : Spec.slideIdx (a : Int) (-1) a = a - 1 := by rw [slideIdx_ge (by omega)]; omega
+  have s2 : Spec.slideIdx (a : Int) (-1) b = b - 1 := by rw [slideIdx_ge (by omega)]; omega
+  refine ⟨?_, ?_, ?_, ?_⟩
+  · simp [Spec.slideRef, Spec.slideCol, Spec.slideRow, Spec.moves, s1, s2]
+  · simp [Spec.denote]
+  · have : ((a - 1 : Nat) : Int) < (a : Int) := by omega
+    simp [Spec.shiftPos, shiftIdx_lt this]
+  · simp [Spec.denote]; omega
+
+/-! ## Defined names (`keepRelative = true`) -/
+
+/-- every endpoint carries `$` on every coordinate / on no coordinate -/
+def allAbs : Spec.Ref → Prop
+  | .cell c r => c.abs = true ∧ r.abs = true
+  | .range c1 r1 c2 r2 => c1.abs = true ∧ r1.abs = true ∧ c2.abs = true ∧ r2.abs = true
+  | .cols c1 c2 => c1.abs = true ∧ c2.abs = true
+  | .rows r1 r2 => r1.abs = true ∧ r2.abs = true
+
+def noAbs : Spec.Ref → Prop
+  | .cell c r => c.abs = false ∧ r.abs = false
+  | .range c1 r1 c2 r2 => c1.abs = false ∧ r1.abs = false ∧ c2.abs = false ∧ r2.abs = false
+  | .cols c1 c2 => c1.abs = false ∧ c2.abs = false
+  | .rows r1 r2 => r1.abs = false ∧ r2.abs = false
+
+/-- a fully absolute reference in a defined name is relocated exactly like a cell formula's -/
+theorem keepRelative_abs_eq (e : Edit) (r : Spec.Ref) (h : allAbs r) :
+    Spec.shiftRef true e r = Spec.shiftRef false e r := by
+  cases r <;> simp only [allAbs] at h <;>
+    simp [Spec.shiftRef, Spec.shiftCol, Spec.shiftRow, Spec.moves, h]
+
+/-- **denote_shift_defined_name** — `denote_shift` for `keepRelative = true`: a defined name whose
+reference is fully absolute (what Excel writes for names) still denotes the same cells. -/
+theorem denote_shift_defined_name (e : Edit) (hn : 0 ≤ e.num) (r r' : Spec.Ref) (p p' : Nat × Nat)
+    (ha : allAbs r) (hs : Spec.shiftRef true e r = some r') (hp : Spec.shiftPos e p = some p')
+    (hok : posOk p) (hok' : posOk p') : Spec.denote r' p' ↔ Spec.denote r p := by
+  rw [keepRelative_abs_eq e r ha] at hs
+  exact denote_shift e hn r r' p p' hs hp hok hok'
+
+/-- **keepRelative_relative_untouched** — the other half of `keepRelative`: a reference without any
+`$` in a defined name is left exactly as it is (it is relative to the cell that uses the name, so it
+denotes the same *positions*, deliberately not the same cells), whatever the edit — also when the
+position lies in a deleted row/column. Mixed references move coordinate by coordinate
+(`Spec.shiftCol`/`shiftRow`); no denotation statement is made for them. -/
+theorem keepRelative_relative_untouched (e : Edit) (r : Spec.Ref) (h : noAbs r) :
+    Spec.shiftRef true e r = some r ∧ Spec.slideRef true e r = r := by
+  cases r <;> simp only [noAbs] at h <;>
+    simp [Spec.shiftRef, Spec.shiftCol, Spec.shiftRow, Spec.slideRef, Spec.slideCol, Spec.slideRow, Spec.moves, h]
+
+/-! ## "Evaluates to the same result": the rewrite joined with C08's evaluator -/
+
+/-- **eval_invariant_under_shift** (DESIGN §4/C07) — for C08's reference evaluator `Calc.Spec.eval`
+(imported from `XlModel.Calc`, any numeric carrier): take an expression tree whose reference leaves are
+in-grid cell references none of which is deleted by the edit; evaluate it over a grid `g`. After the
+edit the grid is `g'`, where every surviving cell kept its value at its new position (`hg`). Then
+the tree with every reference relocated (`shiftKey`: parse, `shiftRef`, render — what
+`operand_rewrite_correct` shows the code produces) evaluates over `g'` to the same value. Uses
+`parse_render` (keys are rendered text) and the cell case of `denote_shift` (`shiftRef_cell_pos`). -/
+theorem eval_invariant_under_shift {N : Type} [Calc.NumOps N] (e : Edit)
+    (g g' : Nat × Nat → Calc.Spec.Val N)
+    (hg : ∀ p p', posOk p → posOk p' → Spec.shiftPos e p = some p' → g' p' = g p)
+    (t : Calc.Expr) (ht : refsAll (goodKey e) t) :
+    Calc.Spec.eval (envOf g') (mapRef (shiftKey e) t) = Calc.Spec.eval (envOf g) t :=
+  specEval_mapRef (envOf g) (envOf g') (shiftKey e) t
+    (refsAll_mono (fun k hk => envOf_shiftKey e g g' hg k hk) t ht)
+
+/-- the same for the transcription of calc.go's own operand semantics (`Calc.Impl.evalTree`), which
+C08's `shunting_yard_correct` relates to the token machine -/
+theorem eval_invariant_under_shift_impl {N : Type} [Calc.NumOps N] (e : Edit)
+    (g g' : Nat × Nat → Calc.Impl.CellArg N)
+    (hg : ∀ p p', posOk p → posOk p' → Spec.shiftPos e p = some p' → g' p' = g p)
+    (t : Calc.Expr) (ht : refsAll (goodKey e) t) :
+    Calc.Impl.evalTree (envOf g') (mapRef (shiftKey e) t) = Calc.Impl.evalTree (envOf g) t :=
+  implEval_mapRef (envOf g) (envOf g') (shiftKey e) t
+    (refsAll_mono (fun k hk => envOf_shiftKey e g g' hg k hk) t ht)
+
+/-- **denoted_content_shift** — the range/aggregate counterpart, over an abstract cell content type:
+if surviving cells keep their content and every cell without a pre-image (an inserted row/column) is
+blank, then the NON-BLANK cells a relocated reference denotes are exactly the images of the non-blank
+cells the original denoted, with the same contents. Any evaluator that looks at a reference only
+through the contents of its non-blank cells (SUM, COUNT, MAX, MIN, AVERAGE … over `denote`) therefore
+sees the same multiset of values; `ROWS`/`COUNTBLANK`-like functions do not, by design. -/
+theorem denoted_content_shift {V : Type} (blank : V) (e : Edit) (hn : 0 ≤ e.num) (r r' : Spec.Ref)
+    (hs : Spec.shiftRef false e r = some r') (g g' : Nat × Nat → V)
+    (hg : ∀ p p', posOk p → posOk p' → Spec.shiftPos e p = some p' → g' p' = g p)
+    (hb : ∀ p', posOk p' → (¬ ∃ p, posOk p ∧ Spec.shiftPos e p = some p') → g' p' = blank)
+    (p' : Nat × Nat) (hok' : posOk p') :
+    (Spec.denote r' p' ∧ g' p' ≠ blank) ↔
+      ∃ p, posOk p ∧ Spec.shiftPos e p = some p' ∧ Spec.denote r p ∧ g p ≠ blank ∧ g' p' = g p := by
+  constructor
+  · intro ⟨hd, hne⟩
+    have hex : ∃ p, posOk p ∧ Spec.shiftPos e p = some p' := by
+      apply Classical.byContradiction
+      intro hno
+      exact hne (hb p' hok' hno)
+    obtain ⟨p, hok, hp⟩ := hex
+    have hv := hg p p' hok hok' hp
+    exact ⟨p, hok, hp, (denote_shift e hn r r' p p' hs hp hok hok').mp hd, by rw [← hv]; exact hne, hv⟩
+  · intro ⟨p, hok, hp, hd, hne, hv⟩
+    exact ⟨(denote_shift e hn r r' p p' hs hp hok hok').mpr hd, by rw [hv]; exact hne⟩
+
+/-- non-vacuity of `eval_invariant_under_shift`: `$B$3 + C4` under "insert 2 rows at row 4" -/
+example : refsAll (goodKey ⟨.rows, 4, 2⟩)
+    (.bin .add (.ref (keyOf (.cell ⟨true, 2⟩ ⟨true, 3⟩))) (.ref (keyOf (.cell ⟨false, 3⟩ ⟨false, 4⟩)))) := by
+  refine ⟨⟨⟨true, 2⟩, ⟨true, 3⟩, ⟨true, 2⟩, ⟨true, 3⟩, rfl, by decide, by decide +kernel, by decide⟩,
+    ⟨⟨false, 3⟩, ⟨false, 4⟩, ⟨false, 3⟩, ⟨false, 6⟩, rfl, by decide, by decide +kernel, by decide⟩⟩
+
 /-! ## Where the current code does not satisfy the full statement -/
 
 /-- **finding_array_constant_rewritten** (open) — "every token shape the tokenizer can produce":
@@ -852,17 +899,6 @@ example :
       some (.range ⟨true, 1⟩ ⟨false, 3⟩ ⟨false, 2⟩ ⟨true, 8⟩) ∧
     Spec.shiftRef true ⟨.rows, 1, 2⟩ (.cell ⟨true, 1⟩ ⟨false, 3⟩) = some (.cell ⟨true, 1⟩ ⟨false, 3⟩) ∧
     Spec.shiftRef true ⟨.rows, 1, 2⟩ (.cell ⟨false, 1⟩ ⟨true, 3⟩) = some (.cell ⟨false, 1⟩ ⟨true, 5⟩) := by
-  decide +kernel
-
-/-- `Spec.parseRef` inverts `Spec.render` on samples of every shape (the parser is used by the
-driver's independent token-level Spec; its agreement with the harness's tree-based Spec is checked
-on every transcript line) -/
-example :
-    Spec.parseRef (Spec.render (.range ⟨true, 16384⟩ ⟨false, 5⟩ ⟨false, 27⟩ ⟨true, 1048576⟩)) =
-      some (.range ⟨true, 16384⟩ ⟨false, 5⟩ ⟨false, 27⟩ ⟨true, 1048576⟩) ∧
-    Spec.parseRef (Spec.render (.cell ⟨false, 703⟩ ⟨true, 10⟩)) = some (.cell ⟨false, 703⟩ ⟨true, 10⟩) ∧
-    Spec.parseRef (Spec.render (.cols ⟨true, 1⟩ ⟨false, 52⟩)) = some (.cols ⟨true, 1⟩ ⟨false, 52⟩) ∧
-    Spec.parseRef (Spec.render (.rows ⟨false, 3⟩ ⟨true, 100⟩)) = some (.rows ⟨false, 3⟩ ⟨true, 100⟩) := by
   decide +kernel
 
 end XlModel.Props.C07
